@@ -151,7 +151,8 @@ def spec_to_coq(sp):
         am = None if sp.amount is None else q(sp.amount)
         return "(SEnforceChanges %s %s %s %s %s %s)" % (
             cloc(loc_t(sp.location)), copt(idx, lambda l: clist([cz(i) for i in l])), cseq(sp.reference),
-            copt(mn, cz), copt(am, cq), cbool(sp.amount_percent == 100))
+            copt(mn, cz), copt(am, cq),
+            cbool(sp.minimum_percent == 100 if sp.minimum is not None else sp.amount_percent == 100))
     if cls == "EnforceSequence":
         return "(SEnforceSequence (list_ascii_of_string %s) %s)" % (cstring(sp.sequence), cloc(loc_t(sp.location)))
     if cls == "EnforceChoice":
